@@ -14,6 +14,7 @@ def run(prog, chk):
     extend_request_table(prog, chk)
     replace_table(prog, chk)
     right_link_table(prog, chk)
+    publication_record_copy_table(prog, chk)
     chk.explanation = (
         "(R6) KSI_ExtendResp_verifyWithRequest is evaluated abstractly for every combination of reply status {absent, 0, non-zero} x "
         "request-id equality x requested publication time {absent, equal, different} x aggregation-time equality x shape-time "
@@ -376,3 +377,69 @@ def extend_request_table(prog, chk):
             what = "expected KSI_OK with aggregation time = the caller's start and publication time = %s; source: status %s, request %s, times set %s" % (
                 "the caller's end" if has_end else "unset", q.ret, out, sets)
         chk.ob("C08.request", inst, ok, what, loc=fn.loc(), fn=fn)
+
+
+def publication_record_copy_table(prog, chk):
+    """"Carries the supplied publication record": what is attached to the result is a copy made by KSI_PublicationRecord_clone.  The
+    copy is evaluated on records with 0..2 publication references and no / an empty / 1..2 repository URIs: every list of the copy
+    receives exactly the strings of the same list of the original, in order, and the published data the original's imprint and time."""
+    from ksirules.interp import list_overrides
+    chk.rule("C08.pubrecord", "the copy of the supplied publication record has the original's references, repository URIs (each in its own "
+                              "list, in order) and published data (value table over list lengths)", floor=12)
+    fn = prog.fn("KSI_PublicationRecord_clone", "publicationsfile.c")
+    rp, cp = [p["n"] for p in fn.params]
+    for nref in (0, 1, 2):
+        for nuri in (None, 0, 1, 2):
+            refs = [Ptr("REF%d" % k) for k in range(nref)]
+            uris = [Ptr("URI%d" % k) for k in range(nuri or 0)]
+            lists = {"REFS": refs, "URIS": uris}
+            length, element_at = list_overrides(lists)
+            appended = {}
+            made = []
+
+            def list_new(I, p, node, args):
+                a0 = strip(node["a"][0])
+                while isinstance(a0, dict) and a0.get("k") in ("cast", "paren"):
+                    a0 = strip(a0["e"])
+                key = I.canon(p, lvalue_key(a0["e"], I.fn)) if isinstance(a0, dict) and a0.get("k") == "un" else None
+                if key is None:
+                    return TOP
+                nm = "NEWLIST%d" % len(made)
+                made.append(nm)
+                I.write(p, key, Ptr(nm))
+                return 0
+
+            def append(I, p, node, args):
+                if not isinstance(args[0], Ptr):
+                    return TOP
+                appended.setdefault(args[0].what, []).append(args[1])
+                return 0
+            ov = {"KSI_Utf8StringList_length": length, "KSI_Utf8StringList_elementAt": element_at, "KSI_Utf8StringList_new": list_new,
+                  "KSI_Utf8StringList_append": append, "KSI_Utf8String_ref": lambda I, p, n, a: a[0], "KSI_DataHash_ref": lambda I, p, n, a: a[0],
+                  "KSI_Integer_ref": lambda I, p, n, a: a[0], "KSI_PublicationRecord_free": lambda I, p, n, a: TOP,
+                  "KSI_Utf8String_free": lambda I, p, n, a: TOP, "KSI_ERR_clearErrors": lambda I, p, n, a: TOP}
+            inputs = {rp: Ptr("REC"), cp: Ptr("OUT"), "REC->ctx": Ptr("ctx"), "REC->publicationRef": Ptr("REFS"),
+                      "REC->repositoryUriList": 0 if nuri is None else Ptr("URIS"), "REC->publishedData": Ptr("PD"),
+                      "PD->imprint": Ptr("IMPRINT"), "PD->time": Ptr("TIME"), "PD->ctx": Ptr("ctx")}
+            I = Interp(fn, inputs=inputs, call_model=succeed_model(prog, ov), on_unknown="stop", prog=prog, loop_bound=6)
+            paths = I.run()
+            chk.paths += len(paths)
+            inst = "PublicationRecord_clone[%d reference(s), %s]" % (nref, "no URI list" if nuri is None else "%d repository URI(s)" % nuri)
+            if len(paths) != 1 or paths[0].undetermined:
+                raise AnalysisBroken("%s: evaluation not determined: %s" % (inst, [q.undetermined[:1] for q in paths]))
+            q = paths[0]
+            out = [t[2] for t in q.stores("*" + cp)] + [t[2] for t in q.stores("OUT")]
+            obj = out[-1].what if out and isinstance(out[-1], Ptr) else None
+            got = None
+            if obj:
+                lr, lu, pd = I.read(q, obj + "->publicationRef"), I.read(q, obj + "->repositoryUriList"), I.read(q, obj + "->publishedData")
+                got = {"references": appended.get(lr.what, []) if isinstance(lr, Ptr) else None,
+                       "URIs": (appended.get(lu.what, []) if isinstance(lu, Ptr) else None),
+                       "imprint": I.read(q, pd.what + "->imprint") if isinstance(pd, Ptr) else None,
+                       "time": I.read(q, pd.what + "->time") if isinstance(pd, Ptr) else None,
+                       "same list twice": isinstance(lr, Ptr) and lr == lu}
+            want = {"references": refs, "URIs": uris if nuri is not None else None, "imprint": Ptr("IMPRINT"), "time": Ptr("TIME"), "same list twice": False}
+            if nuri is None and got and got["URIs"] == []:
+                got["URIs"] = None      # an empty list in place of an absent one serializes alike
+            chk.ob("C08.pubrecord", inst, q.ret == 0 and got == want, "expected %s; source: status %s, %s" % (want, q.ret, got),
+                   loc=fn.loc(), fn=fn, nontrivial=bool(nuri))
